@@ -2,6 +2,8 @@
 """tools/keep_from_log.py <eval-log>: store every evaluated, confirmed mutant of the log under seeded/"""
 import json, os, re, subprocess, sys
 log = open(sys.argv[1]).read()
+SUB = sys.argv[2] if len(sys.argv) > 2 else "_mutants"
+TAG = sys.argv[3] if len(sys.argv) > 3 else ""
 blocks = re.split(r"^=== ", log, flags=re.M)[1:]
 for b in blocks:
     head, *rest = b.split("\n")
@@ -26,5 +28,5 @@ for b in blocks:
             notes.append(f"./check {c} quick with the patch applied to /repo: exit 1, e.g. {lines[0] if lines else ''}")
         else:
             notes.append(f"./check {c} quick with the patch: exit {code} (not detected)")
-    src = f"/tmp/wt_{prop}/_mutants/{mid}"
-    subprocess.call(["/verif/tools/keep_mutant.py", src, f"{prop}-{mid}", ",".join(caught) or "none", " ; ".join(notes)[:600]])
+    src = f"/tmp/wt_{prop}/{SUB}/{mid}"
+    subprocess.call(["/verif/tools/keep_mutant.py", src, f"{prop}-{TAG}{mid}", ",".join(caught) or "none", " ; ".join(notes)[:600]])
